@@ -40,6 +40,9 @@ const (
 	KMap     = "map"
 	KTMap    = "taggable-map"
 	KPBStruct = "*structpb.Struct"
+	KPTMap    = "*taggable-map"
+	KTMaps    = "[]taggable-map"
+	KPTMaps   = "[]*taggable-map"
 )
 
 // Map value layouts.
@@ -117,7 +120,10 @@ func (s *Shape) write(sb *strings.Builder) {
 			k.write(sb)
 		}
 		sb.WriteString("}")
-	case KIfaces:
+	case KPTMap:
+		sb.WriteString("->")
+		s.Kids[0].write(sb)
+	case KIfaces, KTMaps, KPTMaps:
 		sb.WriteString("[")
 		for i, k := range s.Kids {
 			if i > 0 {
@@ -189,7 +195,7 @@ func genLeaf(t *rapid.T, kinds []string) *Shape {
 func genField(t *rapid.T, depth int) *Shape {
 	choices := []string{"leaf", "leaf", "leaf", "leaf", "inert"}
 	if depth > 0 {
-		choices = append(choices, KStruct, KPStruct, KPStruct, KStructs, KPStrcts, KIface, KIfaces, KMap, KMap, KTMap, KPBStruct)
+		choices = append(choices, KStruct, KPStruct, KPStruct, KStructs, KPStrcts, KIface, KIfaces, KMap, KMap, KTMap, KPBStruct, KPTMap, KTMaps, KPTMaps)
 	}
 	var s *Shape
 	switch c := rapid.SampledFrom(choices).Draw(t, "fieldKind"); c {
@@ -203,7 +209,7 @@ func genField(t *rapid.T, depth int) *Shape {
 		if c != KStruct {
 			s.Nil = rapid.IntRange(0, 9).Draw(t, "nilPtr") == 0
 		}
-		if c == KPStruct {
+		if c == KPStruct || c == KIface {
 			s.Ign = rapid.IntRange(0, 7).Draw(t, "ignoredType") == 0
 		}
 	case KPBStruct:
@@ -216,11 +222,19 @@ func genField(t *rapid.T, depth int) *Shape {
 	case KStructs, KPStrcts:
 		s = &Shape{K: c, N: rapid.IntRange(0, 2).Draw(t, "n"), Kids: []*Shape{genStruct(t, depth-1)}}
 	case KIfaces:
-		s = genIfaces(t, depth-1)
+		s = genIfaces(t, depth-1, true)
 	case KMap:
 		s = genMap(t, depth-1)
 	case KTMap:
 		s = genTMap(t, depth-1)
+	case KPTMap:
+		s = &Shape{K: KPTMap, Kids: []*Shape{genTMap(t, depth-1)}}
+	case KTMaps, KPTMaps:
+		s = &Shape{K: c}
+		n := rapid.IntRange(0, 2).Draw(t, "n")
+		for i := 0; i < n; i++ {
+			s.Kids = append(s.Kids, genTMap(t, depth-1))
+		}
 	}
 	s.Tag, s.HasT = genTag(t)
 	return s
@@ -235,15 +249,25 @@ func genStruct(t *rapid.T, depth int) *Shape {
 	return s
 }
 
-func genIfaces(t *rapid.T, depth int) *Shape {
+// genIfaces draws a []interface{}. Taggable map elements are only generated where the filter
+// documents/tests consulting Tags(): in struct fields and top-level slices, not below untagged maps.
+func genIfaces(t *rapid.T, depth int, allowTaggable bool) *Shape {
 	s := &Shape{K: KIfaces}
 	n := rapid.IntRange(0, 2).Draw(t, "n")
 	for i := 0; i < n; i++ {
-		if rapid.Bool().Draw(t, "elemIsMap") {
+		k := rapid.IntRange(0, 3).Draw(t, "elemKind")
+		if k == 1 && !allowTaggable {
+			k = 0
+		}
+		switch k {
+		case 0:
 			s.Kids = append(s.Kids, genMapOf(t, depth, MSI))
-		} else {
+		case 1:
+			s.Kids = append(s.Kids, &Shape{K: KPTMap, Kids: []*Shape{genTMap(t, depth)}})
+		default:
 			e := genStruct(t, depth)
 			e.K = KPStruct
+			e.Ign = rapid.IntRange(0, 7).Draw(t, "ignoredType") == 0
 			s.Kids = append(s.Kids, e)
 		}
 	}
@@ -303,6 +327,9 @@ func genMapOf(t *rapid.T, depth int, mt string) *Shape {
 			case KPStruct, KStruct:
 				v = genStruct(t, depth-1)
 				v.K = c
+				if c == KPStruct {
+					v.Ign = rapid.IntRange(0, 7).Draw(t, "ignoredType") == 0
+				}
 			case KMap:
 				v = genMapOf(t, depth-1, rapid.SampledFrom([]string{MSI, MSS}).Draw(t, "innerMap"))
 				v.Nil = false
@@ -317,7 +344,7 @@ func genMapOf(t *rapid.T, depth int, mt string) *Shape {
 					v.Kids = append(v.Kids, e)
 				}
 			case KIfaces:
-				v = genIfaces(t, depth-1)
+				v = genIfaces(t, depth-1, false)
 			}
 		}
 		s.Kids = append(s.Kids, v)
@@ -379,6 +406,8 @@ const (
 	TPMap      = "*map"
 	TMaps      = "[]map"
 	TIfaces    = "[]interface{}"
+	TTMaps     = "[]taggable-map"
+	TPTMaps    = "[]*taggable-map"
 	TNil       = "nil"
 	TTypedNil  = "typed-nil"
 	TZero      = "zero-struct"
@@ -402,7 +431,7 @@ func Gen(t *rapid.T, maxDepth int) Payload {
 	p := Payload{Seed: rapid.Uint64().Draw(t, "canarySeed")}
 	depth := rapid.IntRange(0, maxDepth).Draw(t, "depth")
 	p.Top = rapid.SampledFrom([]string{TPStruct, TPStruct, TPStruct, TPStruct, TPStruct, TPStruct, TStruct, TStructs, TPStructs, TStrs, TPStrs, TBytess, TPString, TPBytes, TString, TBytes,
-		TTMap, TPTMap, TMap, TMap, TPMap, TMaps, TIfaces, TNil, TTypedNil, TZero}).Draw(t, "top")
+		TTMap, TPTMap, TMap, TMap, TPMap, TMaps, TIfaces, TTMaps, TPTMaps, TNil, TTypedNil, TZero}).Draw(t, "top")
 	switch p.Top {
 	case TPStruct, TStruct, TTypedNil, TZero:
 		p.Root = genStruct(t, depth)
@@ -433,7 +462,16 @@ func Gen(t *rapid.T, maxDepth int) Payload {
 			p.Root.Kids = append(p.Root.Kids, e)
 		}
 	case TIfaces:
-		p.Root = genIfaces(t, depth)
+		p.Root = genIfaces(t, depth, true)
+	case TTMaps, TPTMaps:
+		p.Root = &Shape{K: KTMaps}
+		if p.Top == TPTMaps {
+			p.Root.K = KPTMaps
+		}
+		n := rapid.IntRange(0, 3).Draw(t, "n")
+		for i := 0; i < n; i++ {
+			p.Root.Kids = append(p.Root.Kids, genTMap(t, depth))
+		}
 	}
 	return p
 }
@@ -524,6 +562,12 @@ func typeOf(s *Shape) reflect.Type {
 		return reflect.SliceOf(tMSI)
 	case KTMap:
 		return tTMap
+	case KPTMap:
+		return reflect.PointerTo(tTMap)
+	case KTMaps:
+		return reflect.SliceOf(tTMap)
+	case KPTMaps:
+		return reflect.SliceOf(reflect.PointerTo(tTMap))
 	case KPBStruct:
 		return tPBStruct
 	case KMap:
